@@ -1,4 +1,6 @@
 import MiniVecProof.Proofs.MemCap
+import MiniVecProof.Props.C11
+import MiniVecProof.Props.C07
 /-
   T-MEM: the element-shifting operations `remove`, `insert`, `swap_remove`.
 -/
@@ -82,6 +84,276 @@ theorem remove_spec (X : Ctx) (s : St) (es : List Elem) (i : Nat) (h : Abs X s.v
         congr 2; omega
   · simp [hb]
 
+/-- the header words of the handle after `lift` are those the decision program ended with -/
+theorem lift_v_hdr {α} (X : Ctx) (g : GM α) (s : St) :
+    (VM.lift X g s).2.v.cap = (g (hsOf s.v s.sys.allocIdx)).2.cap ∧
+    (VM.lift X g s).2.v.len = (g (hsOf s.v s.sys.allocIdx)).2.len ∧
+    (VM.lift X g s).2.v.isDefault = (g (hsOf s.v s.sys.allocIdx)).2.isDefault := by
+  rw [lift_run]
+  simp only
+  split <;> simp [withHdr]
+
+theorem insert_pre_capOutcome (E : Env) (gs : GS) (idx : Nat) (hf : gs.fresh = none) (hi : idx ≤ gs.L) :
+    CapOutcomeR E gs (Flow.cont (⟨idx, gs.L⟩ : Env_insert)) (insert_pre E idx gs) := by
+  rw [MV.Props.C11_insert, if_neg (by omega)]
+  by_cases hfull : gs.L = gs.C
+  · rw [if_pos hfull]
+    have := reserve_capOutcome E gs 1 hf
+    generalize reserve E 1 gs = out at this
+    cases this with
+    | same => exact .same
+    | rejected p hp => exact .rejected p hp
+    | allocFailed req hr => exact .allocFailed req hr
+    | grownAlloc c a L hd hL => exact .grownAlloc c a L hd hL
+    | grownRealloc c L L0 hd hl hL hL0 => exact .grownRealloc c L L0 hd hl hL hL0
+  · rw [if_neg hfull]; exact .same
+
+/-- after the grow decision of `insert` returned, there is room for one more element -/
+theorem insert_pre_room (E : Env) (gs gs' : GS) (idx : Nat) (f : Flow Env_insert) (hf : gs.fresh = none)
+    (hi : idx ≤ gs.L) (hlc : gs.L ≤ gs.C) (h : insert_pre E idx gs = (.ok f, gs')) : gs'.L = gs.L ∧ gs.L < gs'.C := by
+  rw [MV.Props.C11_insert, if_neg (by omega)] at h
+  by_cases hfull : gs.L = gs.C
+  · rw [if_pos hfull] at h
+    cases hr : reserve E 1 gs with
+    | mk r g1 =>
+      rw [hr] at h
+      cases r with
+      | error p => simp at h
+      | ok u =>
+        simp at h
+        obtain ⟨_, rfl⟩ := h
+        have := MV.Props.C07_reserve E 1 gs g1 hf hr
+        omega
+  · rw [if_neg hfull] at h
+    obtain ⟨_, rfl⟩ := Prod.mk.inj h
+    exact ⟨rfl, by omega⟩
+
+theorem inb_blk (s : St) (b : Blk) (hb : s.v.blk = some b) (i : Nat) (hi : i ≤ b.slots.length) :
+    VM.inb (.at (dataOff b.lay.align)) i s = (.ok (), s) := by
+  unfold VM.inb VM.blockAt
+  simp [hb, hi]
+
+/-- pointwise description of the list with `e` inserted at `idx` -/
+theorem insertAt_get (es : List Elem) (idx : Nat) (e : Elem) (j : Nat) (hidx : idx ≤ es.length) :
+    (es.take idx ++ [e] ++ es.drop idx)[j]? =
+      if j < idx then es[j]? else if j = idx then some e else es[j - 1]? := by
+  have hm : (es.take idx).length = idx := by simp; omega
+  by_cases h1 : j < idx
+  · rw [if_pos h1, List.append_assoc, List.getElem?_append_left (by omega)]
+    simp [h1]
+  · rw [if_neg h1]
+    by_cases h2 : j = idx
+    · subst h2
+      rw [if_pos rfl, List.append_assoc, List.getElem?_append_right (by omega), hm]
+      simp
+    · rw [if_neg h2, List.getElem?_append_right (by simp; omega)]
+      simp only [List.length_append, hm, List.length_singleton]
+      rw [List.getElem?_drop]
+      congr 1; omega
+
+/-- the element shift, write and length bump that end `insert` -/
+theorem insert_tail (X : Ctx) (s : St) (es : List Elem) (idx : Nat) (e : Elem) (h : Abs X s.v es)
+    (hd : s.v.isDefault = false) (hroom : s.v.len < s.v.cap) (hidx : idx ≤ es.length) :
+    ∃ v', (do
+        let p ← VM.lift X (as_mut_ptr X.env)
+        VM.inb p (idx + 1)
+        VM.cp p idx (idx + 1) (es.length - idx)
+        VM.wr p idx e
+        VM.lift X (set_len X.env (es.length + 1)) : VM Unit) s = (.ok (), { s with v := v' }) ∧
+      Abs X v' (es.take idx ++ [e] ++ es.drop idx) ∧ v'.cap = s.v.cap ∧ v'.isDefault = false := by
+  obtain ⟨b, hb, hl, hs, hlc, hel, hinit⟩ := h.alloc hd
+  have hal : b.lay.align = s.v.align := (make_layout_honest _ _ _ _ hl).2.1
+  have hcapb : s.v.cap ≤ b.slots.length := by rw [hs]; exact physSlots_ge X.env _ _ _ hl h.elem_pos
+  have h1 : VM.lift X (as_mut_ptr X.env) s = (.ok (.at (dataOff s.v.align)), s) :=
+    lift_read X _ s _ (as_mut_ptr_run X.env _ hd b.lay s.v.cap hl)
+  have h2 := inb_blk s b hb (idx + 1) (by omega)
+  have h3 := cp_blk s b hb idx (idx + 1) (es.length - idx) (by omega) (by omega)
+  rw [hal] at h2 h3
+  have hlen1 : (copySlots b.slots idx (idx + 1) (es.length - idx)).length = b.slots.length :=
+    copySlots_length _ _ _ _ (by omega) (by omega)
+  have h4 : VM.wr (.at (dataOff s.v.align)) idx e
+      { s with v := { s.v with blk := some { b with slots := copySlots b.slots idx (idx + 1) (es.length - idx) } } } =
+      (.ok (), { s with v := { s.v with blk := some { b with slots :=
+          (copySlots b.slots idx (idx + 1) (es.length - idx)).set idx (some e) } } }) := by
+    unfold VM.wr VM.blockAt VM.putBlock
+    have : idx < (copySlots b.slots idx (idx + 1) (es.length - idx)).length := by rw [hlen1]; omega
+    simp [hal, this]
+  have h5 := lift_set_len X (es.length + 1)
+    { s with v := { s.v with blk := some { b with slots :=
+        (copySlots b.slots idx (idx + 1) (es.length - idx)).set idx (some e) } } } hd
+  refine ⟨{ s.v with len := es.length + 1, blk := some { b with slots := (copySlots b.slots idx (idx + 1) (es.length - idx)).set idx (some e) } }, ?_, ?_, rfl, hd⟩
+  · simp only [VM.bind_run, h1, h2, h3, h4, h5]
+  · refine ⟨h.elem_pos, fun hx => by simp [hd] at hx, fun _ => ⟨_, rfl, hl, ?_, ?_, ?_, ?_⟩⟩
+    · simp only [List.length_set]; rw [hlen1]; exact hs
+    · simp only; omega
+    · simp; omega
+    · intro j hj
+      simp only at hj ⊢
+      rw [insertAt_get es idx e j hidx]
+      by_cases hje : j = idx
+      · subst hje
+        rw [List.getElem?_set_self (by rw [hlen1]; omega)]
+        simp
+      · rw [List.getElem?_set_ne (by omega)]
+        rw [copySlots_get _ _ _ _ _ (by omega) (by omega)]
+        by_cases hlt : j < idx
+        · rw [if_neg (by omega), if_pos hlt, hinit j (by omega)]
+        · rw [if_pos (by omega), if_neg hlt, if_neg hje, hinit _ (by omega)]
+          congr 2; omega
+
+/-- every way `insert` can end on a well-formed handle -/
+inductive InsertRes (X : Ctx) (s : St) (es : List Elem) (idx : Nat) (e : Elem) : Except Panic Unit × St → Prop
+  | inserted (s' : St) : idx ≤ es.length → Abs X s'.v (es.take idx ++ [e] ++ es.drop idx) → InsertRes X s es idx e (.ok (), s')
+  | stopped (p : Panic) (s' : St) : s'.v = s.v → Panic.benign p = true → InsertRes X s es idx e (.error p, s')
+
+/-- `insert(idx, e)`: for `idx ≤ len` the element is inserted at `idx` (everything behind it moves up
+    by one), or the call stops benignly with the vector untouched; for `idx > len` it panics with the
+    vector untouched. -/
+theorem insert_spec (X : Ctx) (s : St) (es : List Elem) (idx : Nat) (e : Elem) (h : Abs X s.v es) :
+    InsertRes X s es idx e (Vec.insert X idx e s) ∧
+    (idx > es.length → ∃ p s', Vec.insert X idx e s = (.error p, s') ∧ s'.v = s.v) := by
+  have hL : (hsOf s.v s.sys.allocIdx).L = es.length := h.len_eq
+  have hlc : (hsOf s.v s.sys.allocIdx).L ≤ (hsOf s.v s.sys.allocIdx).C := by
+    cases hd : s.v.isDefault with
+    | true => simp [GS.L, GS.C, hsOf, hd]
+    | false =>
+      obtain ⟨_, _, _, _, hlc, _, _⟩ := h.alloc hd
+      simp [GS.L, GS.C, hsOf, hd, hlc]
+  by_cases hgt : idx > es.length
+  · -- rejected by the guard before anything is touched
+    have hrun : insert_pre X.env idx (hsOf s.v s.sys.allocIdx) = (.error .explicit, hsOf s.v s.sys.allocIdx) := by
+      rw [MV.Props.C11_insert, if_pos (by omega)]
+    have h1 : VM.lift X (insert_pre X.env idx) s = (.error .explicit, s) := lift_read X _ s _ hrun
+    obtain ⟨q, s2, ho, hv, hq⟩ := ownArgs_err (α := Flow Env_insert) X [e] _ s s .explicit h1 rfl
+    have hres : Vec.insert X idx e s = (.error q, s2) := by
+      unfold Vec.insert; simp only [VM.bind_run, ho]
+    exact ⟨by rw [hres]; exact .stopped q s2 hv hq, fun _ => ⟨q, s2, hres, hv⟩⟩
+  · have hidx : idx ≤ es.length := by omega
+    refine ⟨?_, fun h' => absurd h' hgt⟩
+    have hco := insert_pre_capOutcome X.env (hsOf s.v s.sys.allocIdx) idx rfl (by omega)
+    have hmem := lift_cap X (insert_pre X.env idx) _ s es h hco
+    have hhdr := lift_v_hdr X (insert_pre X.env idx) s
+    unfold Vec.insert
+    simp only [VM.bind_run]
+    generalize hlr : VM.lift X (insert_pre X.env idx) s = out at hmem hhdr
+    -- the room left after the grow decision
+    have hroomOf : ∀ (s1 : St), out = (.ok (Flow.cont (⟨idx, (hsOf s.v s.sys.allocIdx).L⟩ : Env_insert)), s1) →
+        s1.v.isDefault = false → s1.v.len < s1.v.cap := by
+      intro s1 ho hd1
+      cases hio : insert_pre X.env idx (hsOf s.v s.sys.allocIdx) with
+      | mk r g1 =>
+        rw [hio] at hhdr
+        cases r with
+        | error p =>
+          -- impossible: lift returns the program's result unless the replay is bad (then `.ub`)
+          rw [lift_run, hio] at hlr
+          simp only at hlr
+          split at hlr <;> rw [ho] at hlr <;> simp at hlr
+        | ok f =>
+          have ⟨hl1, hc1⟩ := insert_pre_room X.env _ g1 idx f rfl (by omega) hlc hio
+          rw [ho] at hhdr
+          simp only at hhdr
+          have hg1d : g1.isDefault = false := by rw [← hhdr.2.2]; exact hd1
+          have e1 : g1.L = g1.len := by simp [GS.L, hg1d]
+          have e2 : g1.C = g1.cap := by simp [GS.C, hg1d]
+          rw [hhdr.1, hhdr.2.1]
+          rw [e1] at hl1
+          rw [e2] at hc1
+          omega
+    cases hmem with
+    | same =>
+      rw [ownArgs_ok X [e] _ s s _ hlr]
+      simp only
+      have hd : s.v.isDefault = false := by
+        cases hd : s.v.isDefault
+        · rfl
+        · exfalso
+          -- a never-allocated handle is full (0 = 0), so `insert` has to grow: `same` is impossible
+          have hfull : (hsOf s.v s.sys.allocIdx).L = (hsOf s.v s.sys.allocIdx).C := by simp [GS.L, GS.C, hsOf, hd]
+          cases hio : insert_pre X.env idx (hsOf s.v s.sys.allocIdx) with
+          | mk r g1 =>
+            have hh := hhdr
+            rw [hio] at hh
+            simp only at hh
+            cases r with
+            | error p =>
+              rw [lift_run, hio] at hlr
+              simp only at hlr
+              split at hlr <;> simp at hlr
+            | ok f =>
+              have ⟨_, hc1⟩ := insert_pre_room X.env _ g1 idx f rfl (by omega) hlc hio
+              have hg1d : g1.isDefault = true := by rw [← hh.2.2]; exact hd
+              simp [GS.C, hg1d] at hc1
+      have hroom := hroomOf s rfl hd
+      obtain ⟨v', ht, habs, _, _⟩ := insert_tail X s es idx e h hd hroom hidx
+      rw [hL]
+      rw [ht]
+      exact .inserted _ hidx habs
+    | stopped p s' hv hp _ =>
+      obtain ⟨q, s2, ho, hv2, hq⟩ := ownArgs_err (α := Flow Env_insert) X [e] _ s s' p hlr hp
+      rw [ho]
+      exact .stopped q s2 (by rw [hv2, hv]) hq
+    | grown s' habs hd' hlen' _ _ =>
+      rw [ownArgs_ok X [e] _ s s' _ hlr]
+      simp only
+      have hroom := hroomOf s' rfl hd'
+      obtain ⟨v', ht, habs2, _, _⟩ := insert_tail X s' es idx e habs hd' hroom hidx
+      rw [hL]
+      rw [ht]
+      exact .inserted _ hidx habs2
+
+theorem hdrLenSub_run (X : Ctx) (s : St) (n : Nat) (hd : s.v.isDefault = false) (hle : n ≤ s.v.len) :
+    Vec.hdrLenSub X n s = (.ok (), { s with v := { s.v with len := s.v.len - n } }) := by
+  unfold Vec.hdrLenSub
+  rw [lift_run]
+  simp [GM.hdrLen, GM.setHdrLen, hsOf, hd, usub, hle, replay, replay1, withHdr]
+
+theorem wr_blk (s : St) (b : Blk) (hb : s.v.blk = some b) (i : Nat) (hi : i < b.slots.length) (e : Elem) :
+    VM.wr (.at (dataOff b.lay.align)) i e s =
+      (.ok (), { s with v := { s.v with blk := some { b with slots := b.slots.set i (some e) } } }) := by
+  unfold VM.wr VM.blockAt VM.putBlock
+  simp [hb, hi]
+
+/-- `swap_remove(i)` for `i < len`: returns element `i`; the last element takes its place -/
+theorem swap_remove_spec (X : Ctx) (s : St) (es : List Elem) (i : Nat) (h : Abs X s.v es) (hi : i < es.length) :
+    ∃ v', Vec.swap_remove X i s = (.ok es[i], { s with v := v' }) ∧
+      Abs X v' ((es.set i (es[es.length - 1]'(by omega))).take (es.length - 1)) ∧ v'.cap = s.v.cap := by
+  have hL : (hsOf s.v s.sys.allocIdx).L = es.length := h.len_eq
+  have hd : s.v.isDefault = false := by
+    cases hd : s.v.isDefault
+    · rfl
+    · have := (h.sentinel hd).2; subst this; simp at hi
+  obtain ⟨b, hb, hl, hs, hlc, hel, hinit⟩ := h.alloc hd
+  have hal : b.lay.align = s.v.align := (make_layout_honest _ _ _ _ hl).2.1
+  have hcapb : s.v.cap ≤ b.slots.length := by rw [hs]; exact physSlots_ge X.env _ _ _ hl h.elem_pos
+  have hlast : es.length - 1 < es.length := by omega
+  have h1 : VM.lift X (swap_remove_pre X.env i) s = (.ok (.cont ⟨i, es.length⟩), s) :=
+    lift_read X _ s _ (by rw [MV.Props.C11_swap_remove, hL, if_neg (by omega)])
+  have h2 : VM.lift X (as_ptr X.env) s = (.ok (.at (dataOff s.v.align)), s) :=
+    lift_read X _ s _ (as_ptr_run X.env _ hd b.lay s.v.cap hl)
+  have h3 := rd_abs X s es h hd _ hlast
+  have h4 := hdrLenSub_run X s 1 hd (by omega)
+  have h5 : VM.lift X (as_mut_ptr X.env) { s with v := { s.v with len := s.v.len - 1 } } =
+      (.ok (.at (dataOff s.v.align)), { s with v := { s.v with len := s.v.len - 1 } }) :=
+    lift_read X _ _ _ (as_mut_ptr_run X.env _ hd b.lay s.v.cap hl)
+  have h6 := rd_blk { s with v := { s.v with len := s.v.len - 1 } } b i es[i] hb (by
+    rw [hinit i (by omega)]; simp [List.getElem?_eq_getElem hi])
+  have h7 := wr_blk { s with v := { s.v with len := s.v.len - 1 } } b hb i (by omega) (es[es.length - 1])
+  rw [hal] at h6 h7
+  refine ⟨{ s.v with len := s.v.len - 1, blk := some { b with slots := b.slots.set i (some es[es.length - 1]) } }, ?_, ?_, rfl⟩
+  · unfold Vec.swap_remove
+    simp only [VM.bind_run, h1, h2, h3, h4, h5, h6, h7, VM.pure_run]
+  · refine ⟨h.elem_pos, fun hx => by simp [hd] at hx, fun _ => ⟨_, rfl, hl, by simp [hs], by simp; omega, by simp; omega, ?_⟩⟩
+    intro j hj
+    simp only at hj ⊢
+    rw [List.getElem?_take_of_lt (by omega)]
+    by_cases hji : j = i
+    · subst hji
+      rw [List.getElem?_set_self (by omega), List.getElem?_set_self (by omega)]
+    · rw [List.getElem?_set_ne (by omega), List.getElem?_set_ne (by omega), hinit j (by omega)]
+
 end MV
 
 #print axioms MV.remove_spec
+#print axioms MV.swap_remove_spec
+#print axioms MV.insert_spec
